@@ -1,6 +1,11 @@
 CONSTANTS
   NArb = 2
-  NThr = 2
+  Thr = {t1}
+  PreCreated = 1
+  Kinds = {"spawn"}
+  TaskStop = TRUE
+  AtomicCalls = TRUE
+  EagerJoin = TRUE
   MaxCmds = 3
   MaxSys = 2
   Codes = {0, 7}
@@ -18,5 +23,7 @@ CONSTANTS
   RunErrsOnNonZero = TRUE
   BlockOnExact = TRUE
 SPECIFICATION Spec
+VIEW View
+SYMMETRY ThrSym
 INVARIANTS TypeOK C09_FirstCodeWins C09_AllRegisteredStop C09_RunErrOnNonZero C09_EarlyStoppedDeregistered C09_RegistryExact
 CHECK_DEADLOCK FALSE
